@@ -59,6 +59,9 @@ const SNAPSHOT_RETENTION_COUNT: usize = 3;
 /// Lock file name for crash detection
 const LOCK_FILE_NAME: &str = ".state.lock";
 
+/// File holding the per-directory HMAC key used for WAL entry integrity
+const HMAC_KEY_FILE_NAME: &str = ".wal.key";
+
 /// WAL file extension
 const WAL_EXTENSION: &str = "wal";
 
@@ -465,9 +468,33 @@ impl<T: Serialize + for<'de> Deserialize<'de> + Clone + PartialEq + Send + Sync 
             ))
         })?;
 
-        // Generate HMAC key
-        let mut hmac_key_bytes = vec![0u8; 32];
-        rand::thread_rng().fill_bytes(&mut hmac_key_bytes);
+        // Load the HMAC key of this state directory, or generate and persist one on first use.
+        // The key must outlive the process: records are verified with it on recovery.
+        let key_path = config.state_dir.join(HMAC_KEY_FILE_NAME);
+        let hmac_key_bytes = match std::fs::read(&key_path) {
+            Ok(bytes) if bytes.len() == 32 => bytes,
+            _ => {
+                let mut bytes = vec![0u8; 32];
+                rand::thread_rng().fill_bytes(&mut bytes);
+                let temp_key_path = key_path.with_extension("tmp");
+                std::fs::write(&temp_key_path, &bytes)
+                    .and_then(|()| std::fs::rename(&temp_key_path, &key_path))
+                    .map_err(|e| {
+                        P2PError::Storage(StorageError::Database(
+                            format!("Failed to persist WAL integrity key: {e}").into(),
+                        ))
+                    })?;
+                #[cfg(unix)]
+                {
+                    use std::os::unix::fs::PermissionsExt;
+                    let _ = std::fs::set_permissions(
+                        &key_path,
+                        std::fs::Permissions::from_mode(STATE_FILE_PERMISSIONS),
+                    );
+                }
+                bytes
+            }
+        };
         let hmac_key = SecureMemory::from_slice(&hmac_key_bytes)?;
 
         // Create WAL writer
